@@ -118,6 +118,9 @@ def run(chk: Check) -> None:
     sp = [c for c in calls_in_func(la, 'create_task')]
     ok = ok and len(sp) == 1 and 'step_until_terminated()' in norm(sp[0].args[0])
     chk.ob('DOM-barrier-wait', la, ok, 'a launched child runs on the parent\'s loop and is stepped until it terminates (its future then completes)', kind='child-launch')
+    # a ToContext returned by a step nested in if_/while_/blocks must reach _do_step: every stepper hands its child's value up unchanged
+    from .c09 import child_value_handed_up
+    child_value_handed_up(chk, 'DOM-barrier-wait')
     # cross reference: the unguarded writes of _awaitable_done are C06's finding
     g10 = [s for s in waiting_future_writers(chk) if s.func is ad and s.guard not in ('guarded', 'fresh')]
     if g10:
